@@ -173,8 +173,11 @@ void *abtv_malloc(size_t sz)
         return NULL;
     }
     void *p = malloc(sz ? sz : 1);
-    if (p)
+    if (p) {
         ledger_add(p, sz, LK_MALLOC);
+        /* malloc'ed memory is indeterminate: make reads of uninitialised fields visible */
+        memset(p, 0xcb, sz <= 16384 ? sz : 256);
+    }
     return p;
 }
 void *abtv_calloc(size_t n, size_t sz)
@@ -223,8 +226,10 @@ int abtv_posix_memalign(void **pp, size_t align, size_t sz)
     if (alloc_should_fail(SIM_RES_MALLOC))
         return ENOMEM;
     int r = posix_memalign(pp, align, sz ? sz : 1);
-    if (r == 0)
+    if (r == 0) {
         ledger_add(*pp, sz, LK_MALLOC);
+        memset(*pp, 0xcb, sz <= 16384 ? sz : 256);
+    }
     return r;
 }
 void *abtv_mmap(void *addr, size_t len, int prot, int flags, int fd, off_t off)
